@@ -119,6 +119,16 @@ fn finite_and_track(f: &Flarm) -> Option<(String, String)> {
             return Some((format!("non-finite:{n}"), format!("{n} = {v}")));
         }
     }
+    // every number of the record, whatever fields it has (a serde serializer that fails on the first non-finite number)
+    {
+        use serde::Serialize;
+        if let Err(e) = f.serialize(crate::c07::FiniteCheck) {
+            let key = e.0.split('@').nth(1).unwrap_or("").to_string();
+            if e.0.starts_with("non-finite") && !key.starts_with("reference") {
+                return Some((format!("non-finite:{key}"), format!("{} in the serialised record", e.0)));
+            }
+        }
+    }
     if !(f.track >= 0.0 && f.track < 360.0) {
         return Some(("track-range".into(), format!("track = {} is outside [0, 360)", f.track)));
     }
@@ -191,6 +201,22 @@ fn check_inverse(fl: &Fields, time: u32, reference: &[f64; 2], true_pos: Option<
             }
             if f.geoaltitude != fl.alt {
                 bad("altitude", format!("altitude {} decoded as {}", fl.alt, f.geoaltitude));
+            }
+            // the decoded position fed back as the reference (a receiver on board, a previous fix): same record, all finite
+            if fl.lat_code % 4 == fl.lon_code % 4 && f.latitude.is_finite() && f.longitude.is_finite() {
+                let back = [f.latitude, f.longitude];
+                match decode(time, &back, &pkt) {
+                    Err(p) => bad("feedback", format!("from_record panicked when the decoded position {back:?} is given as the reference: {p}")),
+                    Ok(Err(e)) => bad("feedback", format!("the packet is rejected when its own decoded position {back:?} is given as the reference: {e}")),
+                    Ok(Ok(g)) => {
+                        if let Some((c, w)) = finite_and_track(&g) {
+                            rep.violation(&format!("feedback:{c}"), format!("with the decoded position {back:?} as the reference: {w}"), wit_inv(fl, time, &back, true_pos, &pkt));
+                        }
+                        if (g.latitude - f.latitude).abs() > STEP * 1.0001 || (g.longitude - f.longitude).abs() > STEP * 1.0001 {
+                            bad("feedback", format!("decoded ({}, {}) against the reference, ({}, {}) against its own decoded position", f.latitude, f.longitude, g.latitude, g.longitude));
+                        }
+                    }
+                }
             }
             if let Some((lat, lon)) = true_pos {
                 if (f.latitude - lat).abs() > STEP * 1.0001 {
@@ -429,6 +455,57 @@ pub fn run(ctx: &Ctx, rep: &Report) {
         total.fetch_add(n, Ordering::Relaxed);
         accepted.fetch_add(n, Ordering::Relaxed);
         rep.part("two-call sequences over timestamp-bit x address-bit neighbours", total.load(Ordering::Relaxed) - before, json!({"pairs": n / 2}));
+    }
+    // longer sequences (a small cache with a replacement policy is hidden state that two calls cannot reach): every
+    // sequence of 6 (thorough 8) calls over 5 (6) devices / key slots, every call held to the inversion oracle
+    {
+        let before = total.load(Ordering::Relaxed);
+        let t0 = 1_646_885_426u32;
+        let mut syms: Vec<(u32, u32)> = vec![(t0, 0x38f27b), (t0 + 64, 0x38f27b), (t0, 0x38f26b), (t0 + 128, 0x38f07b), (t0 ^ (1 << 23), 0x3af27b)];
+        if thorough {
+            syms.push((t0 + 64, 0x38f26b));
+        }
+        let k = syms.len();
+        let len = if thorough { 8 } else { 6 };
+        let fields: Vec<Fields> = syms.iter().enumerate().map(|(i, (_, a))| Fields { addr: *a, actype: 1 + i as u32, alt: 1000 + 10 * i as u32, no_track: i % 2 == 1, ..Fields::base() }).collect();
+        let cnt = AtomicU64::new(0);
+        par_items(ctx.threads, k * k, |sh| {
+            let mut idx = vec![0usize; len];
+            idx[0] = sh % k;
+            idx[1] = sh / k;
+            let mut n = 0u64;
+            'outer: loop {
+                for (pos, i) in idx.iter().enumerate() {
+                    if pos > 0 {
+                        let (pt, pf) = (syms[idx[pos - 1]].0, &fields[idx[pos - 1]]);
+                        PRIOR.with(|p| *p.borrow_mut() = Some((pt, pf.packet(pt))));
+                    }
+                    check_inverse(&fields[*i], syms[*i].0, &base_ref, None, rep);
+                    n += 1;
+                }
+                PRIOR.with(|p| *p.borrow_mut() = None);
+                if stopped() {
+                    break;
+                }
+                let mut d = len;
+                loop {
+                    if d == 2 {
+                        break 'outer;
+                    }
+                    d -= 1;
+                    idx[d] += 1;
+                    if idx[d] < k {
+                        break;
+                    }
+                    idx[d] = 0;
+                }
+            }
+            cnt.fetch_add(n, Ordering::Relaxed);
+        });
+        let n = cnt.load(Ordering::Relaxed);
+        total.fetch_add(n, Ordering::Relaxed);
+        accepted.fetch_add(n, Ordering::Relaxed);
+        rep.part("call sequences over a handful of devices and key slots", total.load(Ordering::Relaxed) - before, json!({"symbols": k, "length": len, "sequences": (k as u64).pow(len as u32)}));
     }
     // positions: every latitude / longitude code inside the window of each reference
     let before = total.load(Ordering::Relaxed);
